@@ -14,7 +14,7 @@ def correspondence(ctx):
     maxlen = 3 if ctx.tier == 'quick' else 4
     cases = []
     for op in ('prepare', 'enforce'):
-        cases += profile_cases(ctx, 'op', op, FREE_ALPHA, maxlen, 3000 if ctx.tier == 'quick' else 60000)
+        cases += profile_cases(ctx, 'op', op, xa(ctx, FREE_ALPHA, 5), maxlen, 3000 if ctx.tier == 'quick' else 60000)
     for s in all_strings(FREE_ALPHA, maxlen - 1, 0):
         cases.append(f'composed|op|prepare|{hexs(s)}')
         cases.append(f'composed|op|enforce|{hexs(s)}')
